@@ -506,6 +506,8 @@ impl<'r> InsertChildren {
                 };
                 let nodes = nodes.document_order();
                 let n_nodes = nodes.len();
+                #[cfg(mathcat_verif)]
+                verif::ev(|| format!("n {}", n_nodes));
                 let mut expanded_result = Vec::with_capacity(n_nodes + (n_nodes+1)*self.replacements.replacements.len());
                 expanded_result.push(
                     Replacement::XPath(
@@ -1415,7 +1417,11 @@ impl<'r> TestArray {
 
     fn replace<'c, 's:'c, 'm:'c, T:TreeOrString<'c, 'm, T>>(&self, rules_with_context: &'r mut SpeechRulesWithContext<'c, 's,'m>, mathml: Element<'c>) -> Result<T> {
         for test in &self.tests {
+            #[cfg(mathcat_verif)]
+            verif::ev(|| "c".to_string());
             if test.is_true(&rules_with_context.context_stack.base, mathml)? {
+                #[cfg(mathcat_verif)]
+                verif::ev(|| "y".to_string());
                 assert!(test.then_part.is_some());
                 return test.then_part.as_ref().unwrap().replace(rules_with_context, mathml);
             } else if let Some(else_part) = test.else_part.as_ref() {
@@ -2307,6 +2313,8 @@ impl<'c, 's:'c, 'r, 'm:'c> SpeechRulesWithContext<'c, 's,'m> {
         // debug!("Looking for a match for: \n{}", mml_to_string(&mathml));
         let tag_name = mathml.name().local_part();
         let rules = &self.speech_rules.rules;
+        #[cfg(mathcat_verif)]
+        verif::ev(|| format!("P {} {}", self.speech_rules.name, tag_name));
 
         // start with priority rules that apply to any node (should be a very small number)
         if let Some(rule_vector) = rules.get("!*") {
@@ -2339,6 +2347,8 @@ impl<'c, 's:'c, 'r, 'm:'c> SpeechRulesWithContext<'c, 's,'m> {
     fn find_match<T:TreeOrString<'c, 'm, T>>(&'r mut self, rule_vector: &[Box<SpeechPattern>], mathml: Element<'c>) -> Result<Option<T>> {
         for pattern in rule_vector {
             // debug!("Pattern: {}", pattern);
+            #[cfg(mathcat_verif)]
+            verif::ev(|| format!("T {}|{}|{}", pattern.file_name, pattern.pattern_name, pattern.tag_name));
             // pushing and popping around the is_match would be a little cleaner, but push/pop is relatively expensive, so we optimize
             if pattern.match_uses_var_defs {
                 self.context_stack.push(pattern.var_defs.clone(), mathml)?;
@@ -2348,7 +2358,11 @@ impl<'c, 's:'c, 'r, 'm:'c> SpeechRulesWithContext<'c, 's,'m> {
                 if !pattern.match_uses_var_defs && pattern.var_defs.len() > 0 { // don't push them on twice
                     self.context_stack.push(pattern.var_defs.clone(), mathml)?;
                 }
+                #[cfg(mathcat_verif)]
+                verif::ev(|| format!("H {}", mathml.children().iter().filter(|c| c.element().is_some()).count()));
                 let result: Result<T> = pattern.replacements.replace(self, mathml);
+                #[cfg(mathcat_verif)]
+                verif::ev(|| "R-".to_string());
                 if pattern.var_defs.len() > 0 {
                     self.context_stack.pop();
                 }
@@ -2472,6 +2486,12 @@ impl<'c, 's:'c, 'r, 'm:'c> SpeechRulesWithContext<'c, 's,'m> {
     }
 
     fn replace<T:TreeOrString<'c, 'm, T>>(&'r mut self, replacement: &Replacement, mathml: Element<'c>) -> Result<T> {
+        #[cfg(mathcat_verif)]
+        verif::ev(|| format!("I {}", match replacement {
+            Replacement::Text(_) => "T", Replacement::XPath(_) => "X", Replacement::TTS(_) => "S", Replacement::Intent(_) => "N",
+            Replacement::Test(_) => "?", Replacement::With(_) => "W", Replacement::SetVariables(_) => "V", Replacement::Insert(_) => "+",
+            Replacement::Translate(_) => "L",
+        }));
         return Ok(
             match replacement {
                 Replacement::Text(t) => T::from_string(t.clone(), self.doc)?,
@@ -2625,6 +2645,8 @@ impl<'c, 's:'c, 'r, 'm:'c> SpeechRulesWithContext<'c, 's,'m> {
             };
 
             // map across all the parts of the replacement, collect them up into a Vec, and then concat them together
+            #[cfg(mathcat_verif)]
+            verif::ev(|| format!("U+ {} {}", ch_as_u32, rules.name));
             let result = replacements.unwrap()
                         .iter()
                         .map(|replacement|
@@ -2632,6 +2654,8 @@ impl<'c, 's:'c, 'r, 'm:'c> SpeechRulesWithContext<'c, 's,'m> {
                                     .chain_err(|| format!("Unicode replacement error: {}", replacement)) )
                         .collect::<Result<Vec<String>>>()?
                         .join(" ");
+            #[cfg(mathcat_verif)]
+            verif::ev(|| "U-".to_string());
             rules_with_context.translate_count = 0;     // found a replacement, so not in a loop
             return Ok(result);
         }
@@ -2833,6 +2857,33 @@ pub mod verif {
 
     pub fn take_array_log() -> Vec<(Vec<String>, Vec<String>)> {
         return ARRAY_LOG.with(|log| log.replace(vec![]));
+    }
+
+    thread_local!{
+        static EVAL_LOG: std::cell::RefCell<Option<Vec<String>>> = const { std::cell::RefCell::new(None) };
+    }
+
+    /// switches the rule-evaluation trace on (an empty trace) or off
+    pub fn trace_eval(on: bool) {
+        EVAL_LOG.with(|log| *log.borrow_mut() = if on {Some(vec![])} else {None});
+    }
+
+    /// one event of the rule-evaluation trace (only built when the trace is on):
+    /// `P rules tag` match_pattern called on an element with that set of rules, `T file|name|tag` rule tried, `H n` it matched an element with n element children, `R-` its replacement is done,
+    /// `I k` replacement item of kind k dispatched, `c` test entry visited, `y` its condition held, `n k` insert over k nodes,
+    /// `U+ code rules` / `U-` Unicode replacement of a character
+    pub fn ev<F: FnOnce() -> String>(f: F) {
+        EVAL_LOG.with(|log| {
+            if let Some(v) = log.borrow_mut().as_mut() {
+                if v.len() < 400000 {
+                    v.push(f());
+                }
+            }
+        });
+    }
+
+    pub fn take_eval_log() -> Vec<String> {
+        return EVAL_LOG.with(|log| match log.borrow_mut().as_mut() { Some(v) => std::mem::take(v), None => vec![] });
     }
 
     thread_local!{
